@@ -373,7 +373,7 @@ def applyWrites (d : Disk) (ws : List Write) : Disk := ws.foldl applyWrite d
 /-! ### histories -/
 
 /-- disk + running process (`none`: no process — crashed or stopped; the next
-run starts a new one whose live set is the configured keys) + clock. -/
+run starts a new one whose live set is `startupKeys`) + clock. -/
 structure Sys where
   disk : Disk := {}
   proc : Option (List Key) := none
@@ -393,14 +393,29 @@ inductive Ev where
   /-- one `AutoTA` run; `crash = some k`: the process dies after `k` of the
   run's file replacements have landed. -/
   | run (f : Option Fetch) (fl : Faults) (crash : Option Nat)
-  /-- `NewResolver` alone: a new process exists and has not refreshed yet; its
-  trust set is the configured keys as they are (`run()` calls `checkPriming`
-  before the first `AutoTA`). -/
+  /-- `NewResolver` alone: a new process exists and has not refreshed yet
+  (`run()` waits for the middleware and calls `checkPriming` before the first
+  `AutoTA`); its trust set is `startupKeys`. -/
   | boot
 deriving DecidableEq, Repr
 
-/-- live set a run starts from: `NewResolver` copies `cfg.RootKeys`. -/
-def startLive (cfg : List Key) (s : Sys) : List Key := s.proc.getD cfg
+/-- `startupRootKeys(cfg.Directory, configured)`: the trust set of a starting
+process (`NewResolver`, since /repo 24304ea): the configured keys minus those
+on record as revoked — tombstone store, `StateRevoked`/`StateRemoved` markers
+of a readable state file — and minus keys that carry the REVOKE bit; a
+tombstone store that exists but does not load leaves nothing to trust. -/
+def startupKeys (cfg : List Key) (d : Disk) : List Key :=
+  let markers : List Nat := match d.state with
+    | .ok tas => (tas.filter (fun ta => isMarker ta.st)).map (·.key.mat)
+    | _ => []
+  match d.tomb with
+  | .empty => []
+  | .corrupt => []
+  | .absent => cfg.filter (fun k => !(markers.contains k.mat || k.revoke))
+  | .ok ms => cfg.filter (fun k => !((ms ++ markers).contains k.mat || k.revoke))
+
+/-- live set a run starts from: that of the running process, or of a new one. -/
+def startLive (cfg : List Key) (s : Sys) : List Key := s.proc.getD (startupKeys cfg s.disk)
 
 def runResult (P : Params) (cfg : List Key) (s : Sys) (f : Option Fetch) (fl : Faults) : Result :=
   autoTA P cfg s.disk (startLive cfg s) f fl s.now
@@ -412,7 +427,7 @@ def step (P : Params) (cfg : List Key) (s : Sys) : Ev → Sys
   | .damage .state => { s with disk := { s.disk with state := .corrupt } }
   | .damage .tombEmpty => { s with disk := { s.disk with tomb := .empty } }
   | .damage .stateEmpty => { s with disk := { s.disk with state := .empty } }
-  | .boot => { s with proc := some cfg }
+  | .boot => { s with proc := some (startupKeys cfg s.disk) }
   | .run f fl crash =>
     let r := runResult P cfg s f fl
     match crash with
